@@ -1,4 +1,5 @@
 import QcoVerif.Lemmas.DefinedExample
+import QcoVerif.Lemmas.DefinedUnrollF
 import QcoVerif.Lemmas.C10Timing
 import QcoVerif.Lemmas.Graph
 import QcoVerif.Generated.ClassTable
@@ -442,7 +443,8 @@ theorem start_exists_unique {w : World} (h : Acyclic w) (hc : Closed w) (o : Nat
 
   Covered: the empty heap, `newLink`, `newOp`, `newCircuit`, `add` (every branch of `addToGraph`: kept explicit link,
   fresh link to the leaf found, fresh empty link), `extend` (group link to the leaves), `copyObj` / `copy`, `addSub` up to
-  a side condition on its last `add`.  Not covered: `applyModifiers` and `flatten` (which can create a cycle, R14). -/
+  a side condition on its last `add`.  `applyModifiers` is covered further below (`applyModifiers_preserves_acyclic`, side condition `SingleUnder`);
+  not covered: `flatten` (which can create a cycle, R14). -/
 
 open Qco.Defined in
 theorem empty_heap_certified : Closed ({} : World) ∧ Acyclic ({} : World) :=
@@ -760,5 +762,126 @@ open Qco.Defined in
 example : Certified exSub ∧ 0 < exSub.ops.size ∧ 1 < exSub.ops.size ∧ (exSub.op 0).isComp = true :=
   ⟨⟨closed_of_check _ (by decide), ⟨_, ranked_of_check exSub [1, 1, 0, 0] (by decide) (by decide)⟩,
     singleLinks_of_check _ (by decide)⟩, by decide, by decide, by decide⟩
+
+/-! #### unrolling (`apply_modifiers_to_self`) keeps the certificate (Lemmas/DefinedUnrollA … F.lean)
+
+  `TreeBelow w f c` (Lemmas/TreeHeap.lean): the heap below `c` is a tree of depth ≤ `f`.
+  `DefinedUnroll.SingleUnder w f c`: no object strictly below `c` carries a group (latest-of) link — true of every heap
+  built with `new / op (plain relations) / sub / copy` (`Defined.Certified`, see `certified_steps`, `op_step_preserves`,
+  `addSub_preserves`, `DefinedUnroll.addLeaf_certified`); the link of `c` itself and everything outside the tree are
+  arbitrary.  `DefinedUnroll.LinksExt w w'`: the link table only grew, no existing link object was changed.
+
+  Why it holds: a `copy()` of such a tree is a component of its own (new objects depend on new objects only) in which
+  every node strictly below the root carries a plain link to nodes of its OWN graph (`add_to_graph` validates or replaces
+  a plain link); `extend` hands the top-level nodes of the copy the group link to the leaves of `c` or validates /
+  replaces their plain link against the graph of `c`.  Ranking: old objects keep their (spread) rank, a new object gets
+  the listing position of the top-level node it sits below, then its rank in the copy — between the nodes of `c` and `c`.
+
+  Full statement wanted: `TreeBelow w f c → Closed w → Acyclic w → Acyclic (w.applyModifiers w.depthFuel c) ∧ Closed …`.
+  Proved with ONE extra hypothesis, `SingleUnder w f c` (no condition on `f`: in a closed acyclic heap every tree is a
+  tree at a depth bound within `depthFuel`, `DefinedUnroll.tree_within_fuel`).  What is missing without it: the proof needs
+  that in a `copy()` every node strictly below the new root refers to nodes of its own graph only; `add_to_graph` guarantees
+  this for PLAIN links (validated or replaced), but of a GROUP link only the picked member is validated, and the members
+  come out of the value-keyed lookup (conflation R3), so a group link strictly below `c` could leave its graph and
+  `extend` could then hang an earlier-listed sibling under a later one that reaches it.  Group links are created by
+  `extend` only (members = leaves of the extended graph); whether the statement itself fails without the hypothesis is
+  open (no counterexample heap was found: references of a copy only point to earlier copies).  For
+  heaps that were already unrolled (all counts `fixed 1`, group links present) see `applyModifiers_again_preserves_acyclic`.
+  Not covered: `flatten` (which can create a cycle, R14). -/
+
+open Qco.Defined Qco.DefinedUnroll in
+/-- **`apply_modifiers` preserves the acyclicity certificate** on a tree-shaped heap below `c` without group links
+    strictly below `c`: the unrolled heap is closed and acyclic. -/
+theorem applyModifiers_preserves_acyclic {w : World} {f c : Nat} (ht : TreeBelow w f c)
+    (hc : Closed w) (ha : Acyclic w) (hs : SingleUnder w f c) :
+    Acyclic (w.applyModifiers w.depthFuel c) ∧ Closed (w.applyModifiers w.depthFuel c) := by
+  obtain ⟨h1, h2, _⟩ := applyModifiers_certified_driver ht hc ha hs
+  exact ⟨h2, h1⟩
+
+open Qco.Defined Qco.DefinedUnroll in
+/-- the same for any recursion fuel `g ≥ f`, with the frame: no existing link object is changed. -/
+theorem applyModifiers_preserves_certificate {w : World} {f c g : Nat} (ht : TreeBelow w f c) (hg : f ≤ g)
+    (hf : f ≤ w.depthFuel) (hc : Closed w) (ha : Acyclic w) (hs : SingleUnder w f c) :
+    Closed (w.applyModifiers g c) ∧ Acyclic (w.applyModifiers g c) ∧ LinksExt w (w.applyModifiers g c) :=
+  applyModifiers_certified f w c g ht hg hf hc ha hs
+
+open Qco.Defined Qco.DefinedUnroll in
+/-- **API-built heaps**: on a certified heap (closed, acyclic, no group link — kept by `new / op / sub / copy`) unrolling
+    any tree keeps the heap closed and acyclic. -/
+theorem applyModifiers_preserves_acyclic_of_certified {w : World} {f c : Nat} (h : Certified w)
+    (ht : TreeBelow w f c) :
+    Acyclic (w.applyModifiers w.depthFuel c) ∧ Closed (w.applyModifiers w.depthFuel c) :=
+  applyModifiers_preserves_acyclic ht h.closed h.acyclic (singleUnder_of_certified h f c)
+
+open Qco.Defined Qco.DefinedUnroll in
+/-- **unrolling again**: on a tree all of whose counts are `fixed 1` (what `apply_modifiers` leaves behind, group links
+    included) a further `apply_modifiers` only allocates copies and keeps the certificate — no condition on the links. -/
+theorem applyModifiers_again_preserves_acyclic {w : World} {f c : Nat} (ht : TreeBelow w f c) (ho : AllOnes w f c)
+    (hf : f ≤ w.depthFuel) (hc : Closed w) (ha : Acyclic w) :
+    Acyclic (w.applyModifiers w.depthFuel c) ∧ Closed (w.applyModifiers w.depthFuel c) := by
+  obtain ⟨h1, h2⟩ := applyModifiers_ones_certified f w c w.depthFuel ht ho hf hf hc ha
+  exact ⟨h2, h1⟩
+
+open Qco.Defined Qco.DefinedUnroll in
+/-- … in particular unrolling twice keeps it. -/
+theorem applyModifiers_twice_preserves_acyclic {w : World} {f c : Nat} (ht : TreeBelow w f c) (hf : f ≤ w.depthFuel)
+    (hc : Closed w) (ha : Acyclic w) (hs : SingleUnder w f c) (g g' : Nat) (hg : f ≤ g) (hg' : f ≤ g') :
+    Acyclic ((w.applyModifiers g c).applyModifiers g' c) ∧ Closed ((w.applyModifiers g c).applyModifiers g' c) := by
+  obtain ⟨h1, h2⟩ := applyModifiers_twice_certified ht hf hc ha hs g g' hg hg'
+  exact ⟨h2, h1⟩
+
+open Qco.Defined Qco.DefinedUnroll in
+/-- **every time of an unrolled circuit is defined** with the driver's fuel, and uniquely so: start, duration and
+    end (= start + duration) of every object of the heap after `apply_modifiers`. -/
+theorem unrolled_times_defined {w : World} {f c : Nat} (ht : TreeBelow w f c)
+    (hc : Closed w) (ha : Acyclic w) (hs : SingleUnder w f c) (o : Nat) :
+    ∃ s d, evStart (w.applyModifiers w.depthFuel c) (w.applyModifiers w.depthFuel c).fuel o = some s ∧
+      evDur (w.applyModifiers w.depthFuel c) (w.applyModifiers w.depthFuel c).fuel o = some d ∧
+      evEnd (w.applyModifiers w.depthFuel c) (w.applyModifiers w.depthFuel c).fuel o = some (s + d) ∧
+      ∀ s', Start (w.applyModifiers w.depthFuel c) o s' → s' = s := by
+  obtain ⟨ha', hc'⟩ := applyModifiers_preserves_acyclic ht hc ha hs
+  generalize w.applyModifiers w.depthFuel c = w' at ha' hc'
+  obtain ⟨hs, he, hd⟩ := start_defined_of_acyclic ha' hc' o
+  obtain ⟨s, hs⟩ := Option.isSome_iff_exists.mp hs
+  obtain ⟨d, hd⟩ := Option.isSome_iff_exists.mp hd
+  obtain ⟨e, he⟩ := Option.isSome_iff_exists.mp he
+  obtain ⟨s', d', hs', hd', rfl⟩ := end_eq_start_add_duration ⟨_, he⟩
+  have e1 : s' = s := start_well_defined hs' ⟨_, hs⟩
+  have e2 : d' = d := DurV.unique hd' ⟨_, hd⟩
+  subst e1; subst e2
+  exact ⟨s', d', hs, hd, he, fun s'' h'' => start_well_defined h'' ⟨_, hs⟩⟩
+
+open Qco.Defined Qco.DefinedUnroll in
+/-- non-vacuity: the example heap `exG` of Lemmas/TreeBuild.lean — `top` (count 1) ⊃ `mid` (count 2) = [measure,
+    `inner` (count 3) = [Rx180]], built with `newCircuit / newOp / add / addSub` — meets every hypothesis (nesting
+    depth 2 below `top`, 2 × (1 + 3) leaf operations after unrolling). -/
+example : TreeBelow exG.1 4 exF.2 ∧ 4 ≤ exG.1.depthFuel ∧ Closed exG.1 ∧ Acyclic exG.1 ∧ SingleUnder exG.1 4 exF.2 ∧
+    Certified exG.1 ∧ (exG.1.op exF.2).isComp = true ∧
+    (exG.1.expand 4 exF.2).Perm [exM.sig, exX.sig, exX.sig, exX.sig, exM.sig, exX.sig, exX.sig, exX.sig] :=
+  ⟨exG_tree.1, exG_tree.2.1, exG_certified.closed, exG_certified.acyclic, singleUnder_of_certified exG_certified 4 exF.2,
+    exG_certified, exG_tree.2.2.1, exG_tree.2.2.2⟩
+
+open Qco.Defined Qco.DefinedUnroll in
+/-- … hence every time of the unrolled example is defined with the driver's fuel. -/
+example (o : Nat) : (evStart (exG.1.applyModifiers exG.1.depthFuel exF.2)
+    (exG.1.applyModifiers exG.1.depthFuel exF.2).fuel o).isSome = true := by
+  obtain ⟨s, _, hs, _⟩ := unrolled_times_defined exG_tree.1 exG_certified.closed exG_certified.acyclic
+    (singleUnder_of_certified exG_certified 4 exF.2) o
+  rw [hs]; rfl
+
+open Qco.Defined Qco.DefinedUnroll in
+/-- non-vacuity of `applyModifiers_again_preserves_acyclic`: the unrolled example has all counts `fixed 1`. -/
+example : TreeBelow (exG.1.applyModifiers exG.1.depthFuel exF.2) 4 exF.2 ∧
+    AllOnes (exG.1.applyModifiers exG.1.depthFuel exF.2) 4 exF.2 ∧
+    4 ≤ (exG.1.applyModifiers exG.1.depthFuel exF.2).depthFuel ∧
+    Closed (exG.1.applyModifiers exG.1.depthFuel exF.2) ∧ Acyclic (exG.1.applyModifiers exG.1.depthFuel exF.2) := by
+  have us := applyModifiers_tree 4 exG.1 exF.2 exG.1.depthFuel exG_tree.1 exG_tree.2.1 exG_tree.2.1
+  obtain ⟨h1, h2⟩ := applyModifiers_preserves_acyclic exG_tree.1 exG_certified.closed
+    exG_certified.acyclic (singleUnder_of_certified exG_certified 4 exF.2)
+  refine ⟨us.tree, us.ones, ?_, h2, h1⟩
+  have := us.size
+  have := exG_tree.2.1
+  unfold World.depthFuel at *
+  omega
 
 end Qco.C01
